@@ -48,6 +48,9 @@ class Check(HCheck):
             Space(Cfg("domain"), ops, d, roots=[al.R0, al.R4], name="plinks/domain"),
             Space(Cfg("subdomain", {A: "path1"}), ops, d - 1, roots=[al.R2], name="plinks/subdomain+path1"),
             Space(Cfg("never"), [al.links((Bb + b"p:w11|p:a|", Bb + b"p:w10|p:b|")), al.page(Bb + b"p:w10|p:c|")], 1, roots=[al.many_prefix_root(12)], name="plinks/12-prefixes"),
+            # 40 siblings inserted in ascending order (a right spine): link-bearing sources whose
+            # token path has 30-40 steps
+            Space(Cfg("domain"), [al.links((A + b"p:s038|", A + b"p:s002|")), al.page(A + b"p:s039|p:k|")], 1, roots=[(al.page(A), al.pages(tuple(A + b"p:s%03d|" % i for i in range(40)), False), al.links((A + b"p:s030|", A), (A + b"p:s035|", A + b"p:s001|"), (A + b"p:s039|", Ax), (A + b"p:s031|", A + b"p:s030|")))], name="plinks/deep-right-spine"),
             # every route that changes the prefix map, between two paginations
             Space(Cfg("domain"), al.prefix_edit_ops() + [al.OBS, al.links((Axy, Ax), (Ax, Axy)), al.rule(A, "path1")], 3 if thorough else 2, roots=[al.R2, al.R4], name="plinks/edits"),
         ]
